@@ -28,9 +28,9 @@ TwoModes == d # <<>> =>
   /\ \A i \in 1..Len(K) :
        Dr[i] = IF EndsWith(K[i], NLSeq) /\ (i < Len(K) \/ EndsWith(d, NLSeq))
                THEN SubSeq(K[i], 1, Len(K[i]) - Len(NLSeq)) ELSE K[i]
-(* the two formulations of Bytes!Find (recursive for short, comprehension for long sequences) agree *)
+(* the two formulations of Bytes!Find (one step per byte for short sequences, one per window for long ones) agree *)
 FindAgree == \A p \in 1..(Len(d) + 2) : \A sub \in {NLSeq, <<>>} \cup (IF d = <<>> THEN {} ELSE {SubSeq(d, 1, 1), SubSeq(d, Len(d), Len(d))}) :
-               FindRec(d, sub, p) = FindSet(d, sub, p)
+               \A k \in {1, 2, 3, 256} : FindRec(d, sub, p) = FindWin(d, sub, p, k)
 (* the ten newline sequences the library uses *)
 NL_LF == <<10>>
 NL_CRLF == <<13, 10>>
